@@ -1,5 +1,5 @@
 """C01 / C06 (slot discipline of block scopes): Compiler::{scope, begin_scope, end_scope, drop_locals, drop_local_count, push_local,
-declare_local_variable, define_local_variable, declare_variable, define_variable, let_}, extracted as they are.  Locals are addressed by their position in `locals`, which must be the
+declare_local_variable, define_local_variable, declare_variable, define_variable, let_, fun}, extracted as they are.  Locals are addressed by their position in `locals`, which must be the
 number of stack slots below them: declaring a local appends exactly one entry at the current depth (and the EmptyBox of a captured one), and
 leaving a block emits one Drop for every local the block declared — those deeper than the depth returned to, no more, no fewer — removes exactly
 those entries and pops the block's symbol table.  emit_byte / error are logging stubs; the scope body is a stub that may declare locals at its own
@@ -10,7 +10,7 @@ UNIT = dict(
   items=[
     ('laythe_vm/src/byte_code.rs', ['struct Label', 'enum CaptureIndex', 'enum SymbolicByteCode']),
     ('laythe_vm/src/compiler/ir/symbol_table.rs', ['enum SymbolState']),
-    ('laythe_vm/src/compiler/mod.rs', ['struct Local', ("impl<'a, 'src: 'a> Compiler<'a, 'src>", ['scope', 'begin_scope', 'end_scope', 'drop_locals', 'drop_local_count', 'push_local', 'declare_local_variable', 'define_local_variable', 'declare_variable', 'define_variable', 'let_'])]),
+    ('laythe_vm/src/compiler/mod.rs', ['struct Local', ("impl<'a, 'src: 'a> Compiler<'a, 'src>", ['scope', 'begin_scope', 'end_scope', 'drop_locals', 'drop_local_count', 'push_local', 'declare_local_variable', 'define_local_variable', 'declare_variable', 'define_variable', 'let_', 'fun'])]),
   ],
   rewrites=[
     ('R7f', 'struct Label'),
@@ -34,6 +34,7 @@ UNIT = dict(
     ('R4', 'Compiler::scope', dict(pat='cb(self);', rep='cb.verif_run(self);', count=1)),
     ('R13r', 'Compiler::drop_locals'),
     ('R5', 'Compiler::let_', dict(pat="&'a ast::Let<'src>", rep='&Let', count=1)),
+    ('R5', 'Compiler::fun', dict(pat="&'a ast::Fun<'src>", rep='&Fun', count=1)),
     ('R8', 'Compiler::declare_local_variable'),
     # the innermost table (`Vec::last().expect(..)`) and the symbol the resolver put there, by value in the model
     ('R6', 'Compiler::declare_local_variable', dict(pat=r'let table = self\s*\.local_tables\s*\.last\(\)\s*\.expect\("Expected local symbol table\."\);', rep='let table = self.verif_last_table();', regex=True, count=1)),
